@@ -165,8 +165,9 @@ class History:
         except Exception as e:
             txt = '%s: %s' % (type(e).__name__, str(e)[:160])
             del e
-            if op in ('send', 'send_nobroadcast', 'send_fail', 'sweep'):
-                pass   # refusals are legitimate (insufficient funds, dust, fee limits, failing provider)
+            if op in ('send', 'send_nobroadcast', 'send_fail', 'sweep') or (op == 'import_raw' and txt.startswith('WalletError')):
+                pass   # refusals are legitimate (insufficient funds, dust, fee limits, failing provider; import of a
+                # transaction whose inputs the wallet no longer has a value for) - the invariants are checked all the same
             else:
                 key = K_UTXOS_STRIP if ('_sa_instance_state' in txt and self.kept) else None
                 self.viol(key, 'operation %s raised %s' % (op, txt), txt, 'completed operation')
